@@ -66,6 +66,10 @@ var versions = map[string]uint16{"1.1": tls.VersionTLS11, "1.2": tls.VersionTLS1
 func TestMain(m *testing.M) {
 	glue.SilenceKlog()
 	glue.LoadRegistry()
+	// The hosting program decides what crypto/tls does by default (its go directive, a //go:debug
+	// line, the GODEBUG variable): here a program that still lets its servers speak TLS 1.0/1.1 unless
+	// their configuration says otherwise. What the library promises must come from its own settings.
+	os.Setenv("GODEBUG", "tls10server=1")
 	caGood, caOther = glue.NewCA("verif trusted CA"), glue.NewCA("verif other CA")
 	// the host's trust store holds the "other" CA (and nothing else): a certificate that chains to a
 	// root the machine trusts is still not one that chains to the configured CA. Go reads the store
